@@ -219,7 +219,7 @@ type c08Proto struct {
 func c08Protos() []c08Proto {
 	return []c08Proto{
 		{"bolt", c08.BoltFrames(false), 1}, {"boltv2", c08.BoltFrames(true), 1}, {"dubbo", c08.DubboFrames(), 1},
-		{"tars", c08.TarsFrames(), 1}, {"dubbo-thrift", c08.ThriftFrames(), 1},
+		{"tars", c08.TarsFrames()[:5], 1} /* the non-canonical vector encodings are exercised by xcodecs only: each costs seconds of CPU and GiBs on the unfixed tree */, {"dubbo-thrift", c08.ThriftFrames(), 1},
 	}
 }
 
